@@ -87,6 +87,29 @@ pub fn set_stream(seed: u64, policy: Policy) {
     })
 }
 
+thread_local! {
+    static YIELD_HOOK: RefCell<Option<Box<dyn Fn(&'static str)>>> = RefCell::new(None);
+}
+
+/// Install (or remove) the calling thread's scheduling hook.  The harness uses it to run two
+/// expansions on two threads under an interleaving *it* chooses: the hook is called at every
+/// [`yield_point`] and may block the thread while the other one runs.
+pub fn set_yield_hook(hook: Option<Box<dyn Fn(&'static str)>>) {
+    YIELD_HOOK.with(|h| *h.borrow_mut() = hook)
+}
+
+/// A point at which the harness may switch to another expansion.  No-op unless a hook is set.
+/// The seam calls it whenever one of its containers is created, inserted into or iterated:
+/// the expander creates containers in attribute processing, in validation and in rendering,
+/// so every phase of an expansion has switch points without a single extra line outside this file.
+pub fn yield_point(label: &'static str) {
+    YIELD_HOOK.with(|h| {
+        if let Some(f) = h.borrow().as_ref() {
+            f(label)
+        }
+    })
+}
+
 /// Restrict the order policy of the calling thread to one iteration site (until the next
 /// [`set_stream`]): lets the harness find out *which* iteration an output depends on.
 pub fn set_site_filter(file_suffix: &str, line: u32) {
@@ -110,6 +133,7 @@ fn mix(mut x: u64) -> u64 {
 }
 
 fn next_seed() -> u64 {
+    yield_point("container:new");
     STREAM.with(|s| {
         let mut s = s.borrow_mut();
         s.counter += 1;
@@ -170,6 +194,7 @@ fn seq_sig(hs: &[u64]) -> u64 {
 /// Apply the thread's order policy to `items` (given in the table's natural order) and
 /// record a probe. `key_hash` must be a seed-independent hash of the element's key.
 fn deliver<T>(mut items: Vec<T>, loc: &'static Location<'static>, op: &'static str, key_hash: impl Fn(&T) -> u64) -> Vec<T> {
+    yield_point("container:iter");
     STREAM.with(|s| {
         let mut s = s.borrow_mut();
         let applies = match &s.only_site {
@@ -231,6 +256,7 @@ impl<K: Hash + Eq, V> HashMap<K, V> {
     // inherent (not via `DerefMut`) so that `m.insert(k, m.len())` keeps compiling: two-phase
     // borrows apply to the auto-ref of a method call, not to an explicit `deref_mut`
     pub fn insert(&mut self, k: K, v: V) -> Option<V> {
+        yield_point("container:insert");
         self.0.insert(k, v)
     }
 
@@ -351,6 +377,7 @@ impl<T> DerefMut for HashSet<T> {
 
 impl<T: Hash + Eq> HashSet<T> {
     pub fn insert(&mut self, t: T) -> bool {
+        yield_point("container:insert");
         self.0.insert(t)
     }
 
